@@ -21,3 +21,53 @@ Qed.
 (* the packet encoder writes a name exactly as Name.Bytes() does *)
 Lemma name_tlv_bytes n : name_tlv n = name_bytes n.
 Proof. unfold name_tlv, tlv, name_bytes. rewrite name_len_inner. reflexivity. Qed.
+
+(* ---------------------------------------------------------------- every Init size equals the size of the bytes EncodeInto writes *)
+Lemma nat_enc_len x : blen (nat_enc x) = N.of_nat (nat_len x).
+Proof. unfold blen. rewrite nat_enc_length. reflexivity. Qed.
+Lemma nat_len_small x : (N.of_nat (nat_len x) <= 8)%N.
+Proof. unfold nat_len. repeat match goal with |- context[if ?c then _ else _] => destruct c end; simpl; lia. Qed.
+Lemma tl_enc_small n : (n <= 252)%N -> tl_enc n = [n].
+Proof. intros H. unfold tl_enc. replace (n <=? 252)%N with true by lia. reflexivity. Qed.
+
+Lemma tlv_len_ok t v : tlv_len t (blen v) = blen (tlv t (blen v) v).
+Proof. unfold tlv_len, tlv. rewrite !blen_app, !tlsz_enc. lia. Qed.
+Lemma bin_tlv_len_ok t b : bin_tlv_len t b = blen (bin_tlv t b).
+Proof. apply tlv_len_ok. Qed.
+Lemma nat_tlv_len_ok t x : nat_tlv_len t x = blen (nat_tlv t x).
+Proof. unfold nat_tlv_len, nat_tlv, natsz. rewrite !blen_app, tlsz_enc, nat_enc_len. unfold blen. simpl. lia. Qed.
+Lemma name_tlv_len_ok n : name_tlv_len n = blen (name_tlv n).
+Proof. unfold name_tlv_len, name_tlv. rewrite name_len_inner. apply tlv_len_ok. Qed.
+
+Lemma osz_oenc {A} (fl : A -> N) (fe : A -> bytes) o : (forall a, fl a = blen (fe a)) -> osz fl o = blen (oenc fe o).
+Proof. intros H. destruct o; simpl; [apply H|reflexivity]. Qed.
+
+Lemma kl_len_ok k : kl_len k = blen (kl_enc k).
+Proof. unfold kl_len, kl_enc. rewrite blen_app. f_equal; apply osz_oenc; intros; [apply name_tlv_len_ok|apply bin_tlv_len_ok]. Qed.
+Lemma vp_len_ok v : vp_len v = blen (vp_enc v).
+Proof. unfold vp_len, vp_enc. rewrite blen_app, !bin_tlv_len_ok. reflexivity. Qed.
+Lemma si_len_ok s : si_len s = blen (si_enc s).
+Proof.
+  unfold si_len, si_enc. rewrite !blen_app, nat_tlv_len_ok.
+  rewrite (osz_oenc _ (fun k => tlv 28 (kl_len k) (kl_enc k))) by (intros; rewrite kl_len_ok; apply tlv_len_ok).
+  rewrite (osz_oenc _ (bin_tlv 38)) by (intros; apply bin_tlv_len_ok).
+  rewrite (osz_oenc _ (fun t => nat_tlv 40 (ms_of t))) by (intros; apply nat_tlv_len_ok).
+  rewrite (osz_oenc _ (nat_tlv 42)) by (intros; apply nat_tlv_len_ok).
+  rewrite (osz_oenc _ (fun v => tlv 253 (vp_len v) (vp_enc v))) by (intros; rewrite vp_len_ok; apply tlv_len_ok).
+  lia.
+Qed.
+Lemma meta_len_ok m : meta_len m = blen (meta_enc m).
+Proof.
+  unfold meta_len, meta_enc. rewrite !blen_app.
+  rewrite (osz_oenc _ (nat_tlv 24)) by (intros; apply nat_tlv_len_ok).
+  rewrite (osz_oenc _ (fun t => nat_tlv 25 (ms_of t))) by (intros; apply nat_tlv_len_ok).
+  rewrite (osz_oenc _ (bin_tlv 26)) by (intros; apply bin_tlv_len_ok).
+  lia.
+Qed.
+Lemma links_len_ok ns : links_len ns = blen (links_enc ns).
+Proof.
+  induction ns as [|n ns IH]; [reflexivity|]. unfold links_enc in *. cbn [links_len map concat].
+  rewrite blen_app, IH, name_tlv_len_ok. reflexivity.
+Qed.
+Lemma wire_len_ok w : wire_len w = blen (concat w).
+Proof. induction w as [|b w IH]; [reflexivity|]. cbn [wire_len fold_right concat]. rewrite blen_app. unfold wire_len in IH. rewrite IH. reflexivity. Qed.
